@@ -65,7 +65,10 @@ pub struct MOp {
     pub inflight: bool,
     /// nothing is prescribed about this operation any more (it may fail or stay pending)
     pub lenient: bool,
+    /// issued on the long-lived worker handle: the handle is not dropped when the operation completes
+    pub keeps_handle: bool,
 }
+
 
 #[derive(Clone, Debug)]
 pub struct MSub {
@@ -141,6 +144,9 @@ pub struct Model {
     pub hits: Vec<&'static str>,
     /// which observation channels are compared (others are ignored)
     pub check_wire: bool,
+    /// see the PUBREC arm of `process_packet`: a QoS 2 publish abandoned before its PUBREC keeps its
+    /// slot, whether or not somebody sends the PUBREL (used by C10/abandoned only)
+    pub tolerate_abandoned_q2: bool,
     pub check_ops: bool,
     pub check_streams: bool,
     pub check_ctx: bool,
@@ -162,6 +168,9 @@ pub struct Model {
     pub by_pid: std::collections::HashMap<u16, Vec<usize>>,
     /// number of live op tasks that still own a handle clone
     pub live_handles: usize,
+    /// the long-lived worker handle (see `start_on_worker`)
+    pub worker_exists: bool,
+    pub worker_busy: Option<usize>,
     /// order in which QoS>0 PUBLISH (false) and PUBREL (true) packets were first written
     pub sent_log: Vec<(usize, bool)>,
     /// a panic whose message contains this text is a documented assertion, not a violation
@@ -207,6 +216,7 @@ impl Model {
             seen_sub_ids: BTreeSet::new(),
             hits: vec![],
             check_wire: true,
+            tolerate_abandoned_q2: false,
             check_ops: true,
             check_streams: true,
             check_ctx: true,
@@ -221,6 +231,8 @@ impl Model {
             wake: BTreeSet::new(),
             by_pid: std::collections::HashMap::new(),
             live_handles: 0,
+            worker_exists: false,
+            worker_busy: None,
             sent_log: vec![],
             exempt_panic: None,
             gate_closed: false,
@@ -297,15 +309,49 @@ impl Model {
             sub: None,
             inflight: false,
             lenient: false,
+            keeps_handle: false,
         });
         self.wake.insert(self.ops.len() - 1);
         self.live_handles += 1;
         self.ops.len() - 1
     }
 
+    /// mode 1: on the long-lived worker handle itself (given back when the operation completes);
+    /// mode 2: on a clone of the worker handle taken now. The worker is a clone of the master handle
+    /// made when it is first needed.
+    pub fn start_on_worker(&mut self, spec: OpSpec, mode: u8) -> usize {
+        if !self.worker_exists {
+            self.worker_exists = true;
+            self.live_handles += 1;
+        }
+        let op = self.start(spec);
+        if mode == 1 {
+            self.live_handles -= 1; // no handle of its own
+            self.ops[op].keeps_handle = true;
+            self.worker_busy = Some(op);
+        }
+        op
+    }
+
+    /// the handle an operation ran on goes away with the completed operation - unless it is the worker
+    fn release_op_handle(&mut self, op: usize) {
+        if self.ops[op].keeps_handle {
+            if self.worker_busy == Some(op) {
+                self.worker_busy = None;
+            }
+        } else {
+            self.live_handles -= 1;
+        }
+    }
+
     pub fn cancel(&mut self, op: usize) {
         if self.ops[op].alive && self.ops[op].st != St::Done {
+            // (the worker handle lives inside the future of the operation it is running)
             self.live_handles -= 1;
+            if self.ops[op].keeps_handle {
+                self.worker_exists = false;
+                self.worker_busy = None;
+            }
         }
         self.ops[op].alive = false;
         self.gate_closed = true;
@@ -878,6 +924,15 @@ impl Model {
                                 self.ops[op].st = St::RecOk;
                                 self.wake.insert(op);
                                 self.hit("pubrec-ok");
+                            } else if self.tolerate_abandoned_q2 {
+                                // (C10/abandoned) Recorded finding K-C15-1: nobody sends the PUBREL.
+                                // Whether or not an implementation completes the handshake on its
+                                // own, the exchange is still open at this point and keeps its slot;
+                                // the wire is no longer compared (a PUBREL may or may not appear).
+                                self.ops[op].st = St::Done;
+                                self.ops[op].lenient = true;
+                                self.check_wire = false;
+                                self.hit("abandoned-q2-open");
                             } else {
                                 // The caller abandoned the publish; the handshake still has to be
                                 // finished (PUBREL, then PUBCOMP frees the slot) - C15.
@@ -1053,7 +1108,7 @@ impl Model {
                         res: ResPat::AnyErr, // "refused with an error": which one is not prescribed
                     });
                     self.ops[op].st = St::Done;
-                    self.live_handles -= 1;
+                    self.release_op_handle(op);
                     self.hit("invalid-request-refused");
                 } else if self.ctx == CtxSt::Gone {
                     self.expected.push(Expect::Done {
@@ -1061,7 +1116,7 @@ impl Model {
                         res: ResPat::Exact("Err:ContextExited".into()),
                     });
                     self.ops[op].st = St::Done;
-                    self.live_handles -= 1;
+                    self.release_op_handle(op);
                     if let Some(sb) = self.ops[op].sub {
                         self.subs[sb].receiver_alive = false;
                     }
@@ -1076,7 +1131,7 @@ impl Model {
                         res: ResPat::Exact("Err:MaximumPacketSizeExceeded".into()),
                     });
                     self.ops[op].st = St::Done;
-                    self.live_handles -= 1;
+                    self.release_op_handle(op);
                     if let Some(sb) = self.ops[op].sub {
                         self.subs[sb].receiver_alive = false;
                     }
@@ -1097,7 +1152,7 @@ impl Model {
                         res: ResPat::Exact("Err:ContextExited".into()),
                     });
                     self.ops[op].st = St::Done;
-                    self.live_handles -= 1;
+                    self.release_op_handle(op);
                 } else {
                     self.queue.push_back(Msg::Pubrel(op));
                     self.ctx_woken = true;
@@ -1116,7 +1171,7 @@ impl Model {
                 }
                 self.expected.push(Expect::Done { op, res });
                 self.ops[op].st = St::Done;
-                self.live_handles -= 1;
+                self.release_op_handle(op);
                 if !self.handles_alive() {
                     self.ctx_woken = true;
                 }
